@@ -164,5 +164,63 @@ Open Scope N_scope.
 Ltac Zify.zify_post_hook ::= Z.div_mod_to_equations.
 
 '''
+def gen_props(n):
+    """Src_C01_tuple<n>: the round trip stated about the expanded impls themselves."""
+    ts = ["t" + c for c in L[:n]]
+    vs = [c.lower() + "v" for c in L[:n]]
+    tl = "; ".join(ts)
+    ptype = " * ".join(["val"] * n)
+    inj = "; ".join(proj(n, k) for k in range(n))
+    eargs = " ".join("(e_is_fixed %s) (e_fixed_len %s) (app_of %s)" % (t, t, t) for t in ts)
+    dargs = " ".join("(d_is_fixed %s) (d_fixed_len %s) (dec %s)" % (t, t, t) for t in ts)
+    fsum = " + ".join("e_fixed_len %s" % t for t in ts)
+    vsum = " + ".join("len (enc %s %s)" % (ts[k], vs[k]) for k in range(n - 1))
+    T = "(TContainer false [%s])" % tl
+    V = "(VCont [%s])" % "; ".join(vs)
+    tup = "(%s)" % ", ".join(vs)
+    out = []
+    out.append("Definition inj%d (p : %s) : val := VCont [%s]." % (n, ptype, inj))
+    out.append("Lemma inj%d_inj p p' : inj%d p' = inj%d p -> p' = p." % (n, n, n))
+    pat = vs[0]
+    pat2 = vs[0] + "'"
+    for v in vs[1:]:
+        pat = "[%s %s]" % (pat, v)
+        pat2 = "[%s %s']" % (pat2, v)
+    out.append("Proof. destruct p as %s, p' as %s. unfold inj%d. cbn [fst snd]. intro H. injection H; intros; subst; reflexivity. Qed.\n" % (pat, pat2, n))
+    out.append("Theorem Src_C01_tuple%d %s %s :" % (n, " ".join(ts), " ".join(vs)))
+    out.append("  rt_type %s = true -> has_ty %s %s = true -> len (enc %s %s) < two32 ->" % (T, T, V, T, V))
+    out.append("  %s + %s <= usize_max ->" % (fsum, vsum))
+    out.append("  (do bs <- GenD.tuple%d_ssz_append %s %s [];" % (n, eargs, tup))
+    out.append("   GenD.tuple%d_from_ssz_bytes %s bs) = Ok %s." % (n, dargs, tup))
+    out.append("Proof.")
+    out.append("  intros Hrt Hty Hlen Hfit.")
+    out.append("  apply (src_round_trip %s inj%d" % (T, n))
+    out.append("           (fun p buf => GenD.tuple%d_ssz_append %s p buf)" % (n, eargs))
+    out.append("           (GenD.tuple%d_from_ssz_bytes %s) %s)." % (n, dargs, tup))
+    out.append("  - intros p'. apply inj%d_inj." % n)
+    out.append("  - exact Hrt.")
+    out.append("  - exact Hty.")
+    out.append("  - exact Hlen.")
+    out.append("  - apply gen_tuple%d_ssz_append. exact Hfit." % n)
+    out.append("  - intro bs. apply gen_tuple%d_from_ssz_bytes." % n)
+    out.append("Qed.")
+    out.append("Print Assumptions Src_C01_tuple%d.\n" % n)
+    return "\n".join(out)
+
+head_props = '''(** * GenPropsTupleN: C01 stated about the tuple impls of arity 3 to 12 as rustc expands them: what the expanded
+    encoder writes for a tuple, the expanded decoder reads back as that tuple, for every choice of component type
+    expressions.  Written by tools/gen_tuple_proofs.py --props (one instance of [src_round_trip] per arity). *)
+From SSZ Require Import Base RustSem Offsets Encoder Builder Types Codec CodecUnfold BaseFacts OffsetsFacts AppendFacts MetaFacts
+     ListDecFacts NoPanic Canon OrderFacts RoundTrip LeafIface LeafProof SizeFacts Strict
+     Generated GenEquiv GenEquivDec GenEquivEnc GenProps GeneratedDerive GenEquivDerive GenEquivDerive2 GenEquivTuple GenEquivTupleN GenPropsDerive.
+From Coq Require Import ZArith ZifyN ZifyBool ZifyNat Lia.
+Open Scope N_scope.
+
+'''
+
+if sys.argv[1] == "--props":
+    lo, hi = int(sys.argv[2]), int(sys.argv[3])
+    sys.stdout.write(head_props + "\n".join(gen_props(n) for n in range(lo, hi + 1)))
+    sys.exit(0)
 lo, hi = int(sys.argv[1]), int(sys.argv[2])
 sys.stdout.write(head + lemma + "\n".join(gen(n) + "\n" + gen_meta(n) for n in range(lo, hi + 1)))
